@@ -230,6 +230,7 @@ func (s *c12NSRun) cell(phase string, tok *c12Tok, M *c12Mount, op logical.Opera
 	granted := tok.grants(M.NS, p)
 	expected := !sealedReq && !sealedTok && granted
 	if tok.NS != M.NS || sealedReq || sealedTok {
+		s.r.Eval(1) // one judged request / matrix cell
 		s.r.Nontrivial(fmt.Sprintf("%s|%s|%d>%d|%v|%v|%s|%s|%v", strings.SplitN(phase, ":", 2)[0], tok.Kind, tok.NS.Depth, M.NS.Depth, inScope, granted, op, f[0], M.Auth))
 	}
 	ev := map[string]any{"request": q, "phase": phase, "token": tok, "outcome": c12Short(q.outcome()), "expected_served": expected}
@@ -396,6 +397,7 @@ func (s *c12NSRun) groups() {
 				s.r.Count("group_cells", 1)
 				inTok := M.NS.under(mb.tok.NS)
 				byRef := mb.ok && mb.X.under(mb.tok.NS) && M.NS.under(mb.X)
+				s.r.Eval(1) // one judged request / matrix cell
 				s.r.Nontrivial(fmt.Sprintf("group|%s|%v|%v|%v|%d>%d", mode, mb.ok, inTok, byRef, mb.tok.NS.Depth, M.NS.Depth))
 				if mode == "any" {
 					if handled && !inTok {
@@ -570,6 +572,7 @@ func (s *c12NSRun) combos(n int) {
 			s.checkSealedUntouched(q)
 		}
 		expected := rns != nil && rm != nil && c12Rec(rm) && !rns.effSealed() && !tok.NS.effSealed() && tok.grants(rns, rest) && strings.HasPrefix(rest, rm.api()+"data")
+		s.r.Eval(1) // one judged request / matrix cell
 		s.r.Nontrivial(fmt.Sprintf("combo|%v|%v|%v|%s|%d", rns != nil, rm == M, expected, tok.Kind, s.rng.Intn(1)))
 		ev := map[string]any{"request": q, "token": tok, "resolved_namespace": c12NSPath(rns), "resolved_rest": rest, "outcome": c12Short(q.outcome())}
 		switch {
